@@ -12,3 +12,13 @@ KFN unsigned long k_csv_field(const char* s, unsigned long n, unsigned style, ch
     for (unsigned long i = 0; i < w && i < cap; ++i) out[i] = str[i];
     return w;
 }
+// the same field writer on an encoder built by its REAL constructor from real csv_options (covers the option -> member plumbing)
+KFN unsigned long k_csv_field_ctor(const char* s, unsigned long n, unsigned style, char delim, char quote, char esc, char* out, unsigned long cap) {
+    csv::csv_options o; o.quote_style((csv::quote_style_kind)style).field_delimiter(delim).quote_char(quote).quote_escape_char(esc);
+    RAWCTOR(enc_t, raw); enc_t* e = new (raw) enc_t(fsink{out, 0, 0}, o);
+    std::string str;
+    e->write_string_value(jsoncons::string_view(s, n), str);
+    unsigned long w = str.size();
+    for (unsigned long i = 0; i < w && i < cap; ++i) out[i] = str[i];
+    return w;
+}
